@@ -247,11 +247,13 @@ func (ft *FT) callWritesSeen(c *ssa.CallCommon, seen map[*ssa.Function]bool) ([]
 	}
 	if callee != nil {
 		ks, all := ft.calleeWrites(callee, seen)
-		var out []string
-		for k := range ks {
-			out = append(out, k)
+		if !all || !(ft.con != nil && ft.con.HasDynMod && ft.con.UnknownLikeDyn && len(seen) <= 1) {
+			var out []string
+			for k := range ks {
+				out = append(out, k)
+			}
+			return out, all
 		}
-		return out, all
 	}
 	if pc := ft.paramContract(c.Value); pc != nil && pc.HasMod && len(pc.Modifies) == 0 {
 		return []string{"$next"}, false
